@@ -15,7 +15,7 @@ RULE = ("(a) constant volume V in (0.2,5): C05's finite-state templates whose la
 ASSUMPTIONS = ["CME reference with volume-scaled propensities from vlib/ref.py", "growth law V0*exp(g t) with g=ln2/cycle or the growth expression's value",
                "exact binomial tails at per-cell level 1e-15 with a confirming second stage"]
 RUN_OPTS = {"batch_size": 2, "timeout_per_case": 300.0, "base_timeout": 120.0}
-MINIMA = {"*": {"constant_volume_runs": 100000, "cells_tested": 200, "growth_cases": 40, "growth_rows_checked": 2000, "division_cases": 20}}
+MINIMA = {"*": {"constant_volume_runs": 100000, "cells_tested": 200, "growth_cases": 40, "growth_rows_checked": 2000, "division_cases": 20, "offset_grid_cases": 15}}
 
 VTEMPLATES = ["homodimer", "trimer", "birthdeath", "hill", "catalysis", "general"]
 
@@ -65,7 +65,10 @@ def generate(tier, seed):
                       "Vdiv": float("%.10g" % Vdiv), "divide": divide, "seed": util.seed64(PROPERTY, tier, seed, "g%d" % j) % (2 ** 31),
                       "route": rnd.choice(["simulator", "simulator", "psm"]), "safe": rnd.random() < 0.3,
                       # volume ticks finer than the grid (only without division: the division row is stated for ticks on the grid)
-                      "tick_div": 1 if divide else rnd.choice([1, 1, 2, 4])})
+                      "tick_div": 1 if divide else rnd.choice([1, 1, 2, 4]),
+                      # output grid that starts after the initial time 0 (an unrecorded burn-in): growth and division are
+                      # still counted from the initial time
+                      "skip": rnd.choice([0, 0, 1, 3, rnd.randint(1, max(1, n // 3))])})
     return cases
 
 
@@ -153,9 +156,12 @@ def run_growth(case):
     sp = GROWTH_MODELS[case["model"]]
     M = specmod.build_model(sp, "ctor")
     dt, n = case["dt"], case["n"]
-    tp = dt * np.arange(n)
+    skip = int(case.get("skip", 0))
+    tp = dt * (skip + np.arange(n))
     V0 = case["V0"]
     g = math.log(2) / case["doubling"]
+    if skip:
+        C["offset_grid_cases"] += 1
     x0 = M.get_species_array().copy()
     pv = np.array(M.get_parameter_values(), dtype=float).copy()
     brandom.py_seed_random(case["seed"])
@@ -203,7 +209,8 @@ def run_growth(case):
         tick = dt / (case.get("tick_div", 1) if case["route"] == "simulator" else 1)
         lo = V0 * np.exp(g * (tt - tick)) * (1 - 1e-9)
         hi = V0 * np.exp(g * tt) * (1 + 1e-9)
-        lo[0] = V0 * (1 - 1e-12)
+        if skip == 0:
+            lo[0] = V0 * (1 - 1e-12)
         if ((Vt < lo) | (Vt > hi)).any():
             i = int(np.argmax((Vt < lo) | (Vt > hi)))
             bad("growth-law", "row %d (t=%g): volume %r outside [%r, %r] (= V0*exp(g*(t-dt)) .. V0*exp(g*t))" % (i, tt[i], Vt[i], lo[i], hi[i]))
@@ -221,7 +228,10 @@ def run_growth(case):
         else:
             k = int(math.floor(math.log(case["Vdiv"] / V0) / g / dt + 1e-12)) + 1
             near = abs(math.log(case["Vdiv"] / V0) / g / dt - round(math.log(case["Vdiv"] / V0) / g / dt)) < 1e-6
-        if k <= n - 1:
+        k -= skip        # row index on a grid whose first point is skip*dt
+        if k < 1:
+            C["division_before_first_output"] += 1     # divides during the unrecorded part: not asserted
+        elif k <= n - 1:
             exp_rows = k + 1
             slack = 0 if (case["dyadic"] and not near) else 1
             if not divided:
